@@ -16,10 +16,12 @@ def run(ctx):
     q = ctx.quick
     # ---- 1. design level
     ctx.tlc_must_hold("state", "MC_NodeStore", cfg="MC_NodeStore_quick.cfg", workers=4, timeout=900, heap="4g",
-                      label="exhaustive design model, one trie, forks, partition factors")
+                      label="exhaustive design model: partition factors x hashed / hash-skipped")
     if not q:
         ctx.tlc_must_hold("state", "MC_NodeStore", cfg="MC_NodeStore_thorough.cfg", workers=4, timeout=3000, heap="4g",
-                          label="exhaustive design model, option matrix")
+                          label="exhaustive design model with a fork (minor versions)")
+        ctx.tlc_must_hold("state", "MC_NodeStore", cfg="MC_NodeStore_matrix.cfg", workers=4, timeout=3000, heap="4g",
+                          label="exhaustive design model, full option matrix")
         ctx.tlc_must_hold("state", "MC_NodeStore", cfg="MC_NodeStore_as.cfg", workers=4, timeout=3000, heap="4g",
                           label="account-like + storage-like trie (root of the latter may come from the deduped space)")
     ctx.cov["exhaustive"] = True
@@ -38,12 +40,13 @@ def run(ctx):
         events, st = ns.record(ctx, "seeded", args, label)
         ns.validate(ctx, events, st, label, {"mode": "seeded", "args": args})
         stats += st
-    depth = 3 if q else 4
-    cfgs = "8" if q else "8,77,100,35"
-    args = ["-depth", depth, "-nib", 2, "-keylen", 2, "-cfgs", cfgs]
-    events, st = ns.record(ctx, "exhaustive", args, "exhaustive")
-    ns.validate(ctx, events, st, "exhaustive", {"mode": "exhaustive", "args": args})
-    stats += st
+    # every action sequence of the given depth after a fixed prefix; matrix index 44 = cache on, TTL 0, hf 1, df max
+    for depth, cfgs in ([(3, "44")] if q else [(3, "8,44,77,100,35,128"), (4, "44")]):
+        label = "exhaustive-d%d" % depth
+        args = ["-depth", depth, "-nib", 2, "-keylen", 2, "-cfgs", cfgs]
+        events, st = ns.record(ctx, "exhaustive", args, label)
+        ns.validate(ctx, events, st, label, {"mode": "exhaustive", "args": args})
+        stats += st
     if not demo_ok and not ctx.violations:
         raise Infra("binding demo: the unmodified demo trace was rejected but the regular validation found nothing")
 
